@@ -16,6 +16,7 @@ import (
 	"testing/iotest"
 
 	"github.com/ipfs/go-cid"
+	"github.com/ipfs/go-unixfsnode/testutil"
 	"pgregory.net/rapid"
 )
 
@@ -513,4 +514,61 @@ func TestC10_R_F21_IdentityHasher(t *testing.T) {
 	if outcome(sets[1]) == "error" {
 		t.Fatalf("C10: two 12-byte names that differ in their first byte could not be placed under the identity name hash")
 	}
+}
+
+// The fixture file builder is a builder too: the file it makes from a random source is a function of the bytes that source
+// delivers, not of how many of them each Read call hands over.
+func TestC10_R_FixtureFileUnderFragmentedRandomSource(t *testing.T) {
+	for _, c := range []struct {
+		size    int
+		chunker string
+	}{{5000, "size-1000"}, {600000, ""}, {262144, ""}, {77, "size-16"}} {
+		var roots []cid.Cid
+		for _, frag := range []string{"whole", "half", "one-byte", "3-5-7"} {
+			var src io.Reader = &detReader{s: 424242}
+			switch frag {
+			case "half":
+				src = iotest.HalfReader(src)
+			case "one-byte":
+				if c.size > 100000 {
+					continue
+				}
+				src = iotest.OneByteReader(src)
+			case "3-5-7":
+				src = &shortReads{r: src, sizes: []int{3, 5, 7}}
+			}
+			st := NewStore()
+			opts := []testutil.Option{testutil.WithRandReader(src)}
+			if c.chunker != "" {
+				opts = append(opts, testutil.WithChunker(c.chunker))
+			}
+			de, err := testutil.UnixFSFile(*st.LinkSystem(), c.size, opts...)
+			if err != nil {
+				t.Fatalf("C10: fixture file of %d bytes from a random source delivering %s reads: %v", c.size, frag, err)
+			}
+			if len(de.Content) != c.size {
+				t.Fatalf("C10: fixture file of %d bytes from a random source delivering %s reads has %d bytes of content", c.size, frag, len(de.Content))
+			}
+			roots = append(roots, de.Root)
+			if de.Root != roots[0] {
+				t.Fatalf("C10: fixture file of %d bytes (chunker %q): root %s when the random source delivers %s reads, %s when it fills every read", c.size, c.chunker, de.Root, frag, roots[0])
+			}
+		}
+	}
+}
+
+// shortReads delivers at most sizes[i%len] bytes per Read call.
+type shortReads struct {
+	r     io.Reader
+	sizes []int
+	i     int
+}
+
+func (s *shortReads) Read(p []byte) (int, error) {
+	n := s.sizes[s.i%len(s.sizes)]
+	s.i++
+	if n > len(p) {
+		n = len(p)
+	}
+	return s.r.Read(p[:n])
 }
